@@ -8,8 +8,8 @@ CONSTANTS
   MaxEdges = 3
   MaxEdgesBig = 2
   Salt = 0
-  EmitMod = 5
-  CheckSplit = TRUE
-  KindN = 3
+  EmitMod = 7
+  CheckSplit = FALSE
+  KindN = 2
   FewSubsets = FALSE
-  RootN = 3
+  RootN = 2
